@@ -26,8 +26,11 @@ Proof.
   intro b. apply canon_mask_same_set. exact H.
 Qed.
 Print Assumptions sql_mask_roundtrip.
+Lemma in_bits_dec : forall x, mem_z x mask_bits = true -> In x mask_bits.
+Proof. intros x H. apply existsb_exists in H. destruct H as [y [Hy E]]. apply Z.eqb_eq in E. subst. exact Hy. Qed.
+Ltac bits_forall := repeat (apply Forall_cons; [apply in_bits_dec; vm_compute; reflexivity|]); apply Forall_nil.
 Example sql_mask_roundtrip_sat : Forall (fun x => In x mask_bits) [8; 4; 8; 8388608] /\ sql_mask_in (sql_mask_out [8; 4; 8; 8388608]) = [4; 8; 8388608].
-Proof. split; [repeat constructor; simpl; tauto|vm_compute; reflexivity]. Qed.
+Proof. split; [bits_forall|vm_compute; reflexivity]. Qed.
 
 Theorem sql_mask_int_roundtrip : forall z, mask_defined z -> sql_mask_out (sql_mask_in z) = z.
 Proof.
@@ -192,7 +195,7 @@ Example attrs_after_register_sat :
   enums_ok ex_wrapped /\ names_untyped ex_attrs /\ mask_attr_defined ex_attrs /\ attrs_readable (2, 0) ex_wrapped.
 Proof.
   split; [vm_compute; repeat split; intro H; discriminate H|]. split; [repeat constructor|].
-  split; [exists [4; 8]; split; [repeat constructor; simpl; tauto|reflexivity]|right; discriminate].
+  split; [exists [4; 8]; split; [bits_forall|reflexivity]|right; discriminate].
 Qed.
 
 (* not proved: the attribute set at any later point of any history (the frame argument of get_at_any_later_point carries over,
